@@ -311,35 +311,36 @@ def statistical(nb, seed, tier):
             for pool in (None, 3):
                 if tier == 'quick' and pool and nn:
                     continue
-                pts = rng.random((500, d))
-                ll = -np.sum((pts - 0.5) ** 2, axis=1) * 30
-                lmin = np.sort(ll)[-150]
-                with np.errstate(all='ignore'):
-                    b = B.NautilusBound.compute(pts, ll, lmin, -1.0 * d, n_networks=nn, neural_network_kwargs=dict(hidden_layer_sizes=(12, 6), max_iter=150),
-                                                n_points_min=d + 10, split_threshold=1.0, rng=np.random.default_rng(int(rng.integers(1 << 30))))
-                    p = RecPool(nb.pool.NautilusPool(T.FakePool(pool, 2, pickle_func=True))) if pool else None
-                    c0 = counters_of(b)
-                    s = b.sample(N // 4, pool=p)
-                    merge_check(b, p, c0, 'NautilusBound-%d-n%d-pool' % (d, nn), fails, st)
-                    while b.n_sample < 200000:
+                for centre in (0.5, 0.06):        # in the middle; in a corner (the outer union then rejects proposals outside the cube)
+                    pts = rng.random((500, d))
+                    ll = -np.sum((pts - centre) ** 2, axis=1) * 30
+                    lmin = np.sort(ll)[-150]
+                    with np.errstate(all='ignore'):
+                        b = B.NautilusBound.compute(pts, ll, lmin, -1.0 * d, n_networks=nn, neural_network_kwargs=dict(hidden_layer_sizes=(12, 6), max_iter=150),
+                                                    n_points_min=d + 10, split_threshold=1.0, rng=np.random.default_rng(int(rng.integers(1 << 30))))
+                        p = RecPool(nb.pool.NautilusPool(T.FakePool(pool, 2, pickle_func=True))) if pool else None
                         c0 = counters_of(b)
-                        b.sample(20000, pool=p)
+                        s = b.sample(N // 4, pool=p)
                         merge_check(b, p, c0, 'NautilusBound-%d-n%d-pool' % (d, nn), fails, st)
-                    vhat = math.exp(b.log_v)
-                    cr = b.contains(ref)
-                st['draws'] += N // 4
-                lab = 'NautilusBound-%d-n%d-%s' % (d, nn, 'pool' if pool else 'serial')
-                vref = float(np.mean(cr))
-                a = 1 - b.n_reject / b.n_sample
-                ao = 1 - b.outer_bound.n_reject / max(1, b.outer_bound.n_sample)
-                rel = math.sqrt(max(a * (1 - a), 1e-12) / b.n_sample) / max(a, 1e-9) + math.sqrt(max(ao * (1 - ao), 1e-12) / max(1, b.outer_bound.n_sample)) / max(ao, 1e-9)
-                se = math.sqrt((vhat * rel) ** 2 + max(vref * (1 - vref), 1e-12) / NREF)
-                st['tests'] += 1
-                if abs(vhat - vref) > Z * se + 1e-12:
-                    fails.append('%s: reported volume %.6g, measure of the region contains() accepts %.6g (%.1f sigma)' % (lab, vhat, vref, abs(vhat - vref) / se))
-                with np.errstate(all='ignore'):
-                    if not np.all(b.contains(s)):
-                        fails.append('%s: proposals outside contains()' % lab)
+                        while b.n_sample < 200000:
+                            c0 = counters_of(b)
+                            b.sample(20000, pool=p)
+                            merge_check(b, p, c0, 'NautilusBound-%d-n%d-pool' % (d, nn), fails, st)
+                        vhat = math.exp(b.log_v)
+                        cr = b.contains(ref)
+                    st['draws'] += N // 4
+                    lab = 'NautilusBound-%d-n%d-%s-%s' % (d, nn, 'pool' if pool else 'serial', 'centre' if centre == 0.5 else 'corner')
+                    vref = float(np.mean(cr))
+                    a = 1 - b.n_reject / b.n_sample
+                    ao = 1 - b.outer_bound.n_reject / max(1, b.outer_bound.n_sample)
+                    rel = math.sqrt(max(a * (1 - a), 1e-12) / b.n_sample) / max(a, 1e-9) + math.sqrt(max(ao * (1 - ao), 1e-12) / max(1, b.outer_bound.n_sample)) / max(ao, 1e-9)
+                    se = math.sqrt((vhat * rel) ** 2 + max(vref * (1 - vref), 1e-12) / NREF)
+                    st['tests'] += 1
+                    if abs(vhat - vref) > Z * se + 1e-12:
+                        fails.append('%s: reported volume %.6g, measure of the region contains() accepts %.6g (%.1f sigma)' % (lab, vhat, vref, abs(vhat - vref) / se))
+                    with np.errstate(all='ignore'):
+                        if not np.all(b.contains(s)):
+                            fails.append('%s: proposals outside contains()' % lab)
     # closed-form ellipsoid volume
     for d in range(1, 9):
         pts = np.clip(rng.normal(0.5, 0.04, (60 + 10 * d, d)), 0, 1)
